@@ -17,7 +17,7 @@ use crate::{
     corpus::{self, CorpusCfg, Universe},
     engine::{self, Exec},
     graph_adapter::GraphAdapter,
-    qast, reference,
+    qast, qgen, reference,
     schema_model::TyRef,
     values::show,
 };
@@ -30,11 +30,7 @@ pub fn run(ctx: &Ctx) -> ! {
     let distinct_types: Mutex<BTreeSet<String>> = Mutex::new(BTreeSet::new());
     let distinct: Mutex<BTreeSet<u64>> = Mutex::new(BTreeSet::new());
     let samples = Mutex::new(Samples::new(4));
-    let stats = corpus::drive(
-        ctx,
-        &uni,
-        &cfg,
-        &|cq| {
+    let per_query = |cq: &corpus::CompiledQuery| {
             // declared outputs: names and types, AST-derived vs engine-declared
             let want = match reference::declared_outputs(&uni.world.schema, &cq.q) {
                 Ok(w) => w,
@@ -54,8 +50,8 @@ pub fn run(ctx: &Ctx) -> ! {
             if f.fold > 0 && f.optional > 0 {
                 samples.lock().unwrap().offer(|| json!({"query_text": cq.text, "declared_outputs": got}));
             }
-        },
-        &|case| {
+        };
+    let per_case = |case: &corpus::Case<'_>| {
             let adapter = Arc::new(GraphAdapter::new(uni.world.clone(), case.ds.clone()));
             let rows = match engine::execute(adapter, case.cq.iq.clone(), case.args) {
                 Exec::Rows(r) => r,
@@ -86,9 +82,20 @@ pub fn run(ctx: &Ctx) -> ! {
             if !rows.is_empty() {
                 distinct.lock().unwrap().insert(crate::common::fnv(format!("{}|{}", case.cq.text, case.ds.name).as_bytes()));
             }
-        },
-        &|_, _| {},
-    );
+        };
+    let stats = corpus::drive(ctx, &uni, &cfg, &per_query, &per_case, &|_, _| {});
+    // second space: every arrangement of up to three edges (next / one; plain, @optional, @fold,
+    // @recurse(2)) each carrying an output, + up to one more deviation: nested folds inside / around
+    // optional scopes are 3-4 deviations from the skeleton, where output-type derivation has to
+    // place list levels and nullability correctly.
+    let cfg_e = qgen::GenCfg { allow: Some(vec!["E"]), e_names: Some(vec!["next", "one"]), e_contents: vec![1], recurse_depths: vec![2], naming_devs: false, max_vertices: 4, ..Default::default() };
+    let three: Vec<qast::Query> = qgen::enumerate(&uni.world.schema, &[qgen::skeleton()], 3, &cfg_e).into_iter().skip(3).flatten().collect();
+    let mut cfg2 = CorpusCfg::new(ctx.tier.pick(0, 1));
+    cfg2.seeds = three;
+    cfg2.gen = qgen::GenCfg { allow: Some(vec!["Fco", "Po", "Ae", "C"]), ..Default::default() };
+    let mut uni2 = Universe::sverif();
+    uni2.datasets.retain(|d| matches!(d.name.as_str(), "diamond" | "fan3" | "chain4" | "twocycle"));
+    let stats2 = corpus::drive(ctx, &uni2, &cfg2, &per_query, &per_case, &|_, _| {});
     let mut c = cov();
     c.insert("evaluations".into(), json!(values_checked.load(Ordering::Relaxed)));
     c.insert("distinct_nontrivial".into(), json!(distinct.lock().unwrap().len()));
@@ -96,7 +103,8 @@ pub fn run(ctx: &Ctx) -> ! {
     c.insert("rows_checked".into(), json!(rows_checked.load(Ordering::Relaxed)));
     c.insert("distinct_declared_types".into(), json!(distinct_types.lock().unwrap().iter().collect::<Vec<_>>()));
     c.insert("corpus".into(), stats.to_json());
+    c.insert("corpus_three_edge_structures".into(), stats2.to_json());
     c.insert("samples".into(), json!(samples.lock().unwrap().items));
-    c.insert("exhaustive".into(), json!(!stats.capped));
+    c.insert("exhaustive".into(), json!(!stats.capped && !stats2.capped));
     ctx.finish("exploration", c, vec!["datasets hold schema-conforming property values (asserted by the dataset conformance check)".into()])
 }
